@@ -1,28 +1,29 @@
 #!/bin/bash
 # verify a sub-agent's seeded change inside its scratch worktree:
-#   verify_seed.sh <worktree> <n> <dest-id>
+#   verify_seed.sh <worktree> <n> <dest-id> [extra cargo-test flags for the demo, e.g. --no-default-features]
 # checks: patch applies; crate builds; existing suite = 239 pass / 2 known failures; demo fails with
 # the patch and passes without; then copies patch/demo/meta to /verif/seeded/<dest-id>/
 set -u
-WT=$1; N=$2; ID=$3
+WT=$1; N=$2; ID=$3; DEMOFLAGS=${4:-}
 S=$WT/_seeded/$N
 cd $WT || exit 2
 git checkout -q -- . ; rm -rf tests
 git apply --check $S/patch.diff || { echo "$ID: patch does not apply"; exit 1; }
 export CARGO_NET_OFFLINE=true
 mkdir -p tests; cp $S/demo.rs tests/seeded_demo.rs
-clean=$(cargo test --offline --test seeded_demo 2>&1 | grep -E "^test result" | head -1)
+clean=$(cargo test --offline $DEMOFLAGS --test seeded_demo 2>&1 | grep -E "^test result" | head -1)
 git apply $S/patch.diff
 build=$(cargo build --offline 2>&1 | tail -1)
 nostd=$(cargo build --offline --no-default-features 2>&1 | tail -1)
 suite=$(cargo test --offline --lib 2>&1 | grep -E "^test result" | head -1)
 failed=$(cargo test --offline --lib 2>&1 | grep -E "^test .* FAILED" | sort | tr '\n' ' ')
 doc=$(cargo test --offline --doc 2>&1 | grep -E "^test result" | head -1)
-patched=$(cargo test --offline --test seeded_demo 2>&1 | grep -E "^test result" | head -1)
+patched=$(cargo test --offline $DEMOFLAGS --test seeded_demo 2>&1 | grep -E "^test result" | head -1)
 git checkout -q -- . ; rm -rf tests
 echo "$ID build: $build | no-default: $nostd"
 echo "$ID suite(with patch): $suite | failing: $failed"
 echo "$ID doc: $doc"
+echo "$ID demo flags: [$DEMOFLAGS]"
 echo "$ID demo clean:   $clean"
 echo "$ID demo patched: $patched"
 mkdir -p /verif/seeded/$ID
